@@ -207,12 +207,15 @@ class DnsProxy(Handler):
 
         family, sockaddr = self._addrinfo(peer, port)
         sock = socket.socket(family, socket.SOCK_DGRAM)
-        sock.connect(sockaddr)
 
         self.peers[sock] = peer
 
         debug2('DNS: sending to %r:%d (try %d)' % (peer, port, self.tries))
         try:
+            # connect() on a datagram socket reports a missing route
+            # (ENETUNREACH, EHOSTUNREACH...) right away; treat it like a
+            # failed send so that the next name server is tried.
+            sock.connect(sockaddr)
             sock.send(self.request)
             self.socks.append(sock)
         except socket.error:
